@@ -46,6 +46,11 @@ class Rich:
             P.new_cells("h", formula="lambda t: n * t + k")
             PC = P.new_space("PC")
             PC.new_cells("pc", formula="lambda: n + 1")
+            Q = self.Q = m.new_space("Q", formula="lambda n: None")      # parametric, referenced by nothing
+            Q.new_cells("qh", formula="lambda t: n * t")
+            QQ = self.QQ = m.new_space("QQ", formula="lambda n: None")   # same, with a child space
+            QQ.new_cells("qh", formula="lambda t: n * t")
+            QQ.new_space("QC").new_cells("qc", formula="lambda: n + 1")
             S = self.S = m.new_space("S", bases=Base)
             S.x, S.y, S.hh = vals["x"], vals["y"], vals["sh"]
             S.Pref = P
